@@ -3,6 +3,7 @@
 -/
 import Plonk.Driver.Prog
 import Plonk.Driver.Kernels
+import Plonk.Driver.Crypto
 open Plonk Plonk.Driver
 
 def dumpState (s : PState) : String :=
@@ -34,6 +35,8 @@ def answer (line : String) : String :=
   | toks =>
     if ["fft", "domain", "elements", "poly", "polyscaled", "binv", "lagrange", "vanish", "vcoset", "mlin", "mvan",
         "bary", "lpi"].contains (toks.headD "") then kernelAnswer (toks.filter (· ≠ ""))
+    else if ["tr", "g1dec", "g2dec", "g1mul", "g1add", "g2mul"].contains (toks.headD "") then
+      cryptoAnswer (toks.filter (· ≠ ""))
     else "bad-request"
 
 partial def loop (h : IO.FS.Stream) (out : IO.FS.Stream) : IO Unit := do
